@@ -131,7 +131,12 @@ def pred_summaries(prog):
         if len(sites) != 1 or sites[0]['cache']:
             continue
         s = sites[0]
-        if not s['subject'] or s['subject'][0] != 'param':
+        subj_param, subj_index_param = None, None
+        if s['subject'] and s['subject'][0] == 'param':
+            subj_param = s['subject'][1]
+        elif s['subject'] and s['subject'][0] == 'acc' and strip(s['subject'][2]).kind == 'param':
+            subj_index_param = strip(s['subject'][2]).args[0]      # the item is designated by its arena index
+        else:
             continue
         rv = b.ret_val[b.cfg.returns[0]]
         table = {}
@@ -143,7 +148,7 @@ def pred_summaries(prog):
             table[rel] = val
         if table:
             tparam = strip_ref_param(s['time'])
-            out[fn.path] = {'table': table, 'subject_param': s['subject'][1], 'family': s['family'], 'site': s, 'time_param': tparam, 'fn': fn}
+            out[fn.path] = {'table': table, 'subject_param': subj_param, 'subject_index_param': subj_index_param, 'family': s['family'], 'site': s, 'time_param': tparam, 'fn': fn}
     prog._summ_cache[key] = out
     return out
 
@@ -244,7 +249,11 @@ def run(ctx):
                 p = preds[tgt.path]
                 pred_calls[c.id] = p['table']
                 k = p['subject_param']
-                if k - 1 < len(c.args):
+                if k is None:
+                    ki = p['subject_index_param']
+                    if ki - 1 < len(c.args):
+                        pred_subject[c.id] = (('acc', None, strip(c.args[ki - 1])), p['family'], c)
+                elif k - 1 < len(c.args):
                     pred_subject[c.id] = (subject_of(prog, c.args[k - 1]) if c.args[k - 1].kind != 'call' else
                                           (('acc', c.args[k - 1], strip(prog.accessor_call(c.args[k - 1])[2])) if prog.accessor_call(c.args[k - 1]) else ('val', c.args[k - 1])),
                                           p['family'], c)
